@@ -106,6 +106,8 @@ func (w *world) converge(o *vrt.Obs, what string) {
 		o.Count("clean_sessions", 1)
 		if res.A.Err == nil && res.B.Err == nil {
 			b2fx.CheckConverged(o, w.sc, w.a, w.b, w.lg.Events())
+			b2fx.CheckContent(o, w.sc.MsgsA, w.b.Inbox(), "B")
+			b2fx.CheckContent(o, w.sc.MsgsB, w.a.Inbox(), "A")
 			return
 		}
 		if len(o.Violations) > 0 {
